@@ -335,6 +335,8 @@ static std::string c11_config(Rng &r, const World &w, int *cls) {
     CfgSpec s;
     // every option appears with probability 1/2, so that later calls often lack what earlier ones set
     if (r.chance(1, 2)) { s.has_format = true; s.format = "fmt" + std::to_string(r.below(1000)) + " %{filename} %{cmdline}" + (r.chance(1, 3) ? " %{uid}" : ""); }
+    // a format that renders to nothing: the call logs nothing - and must leave nothing behind for the calls after it
+    if (r.chance(1, 9)) { s.has_format = true; static const char *ef[] = {"", "\"\"", "%{snoopy_literal:}", "%{env:NOSUCHVAR_C11}"}; s.format = ef[r.below(4)]; }
     if (r.chance(1, 2)) { s.has_chain = true; s.chain = r.chance(1, 2) ? "only_uid:" + std::to_string(w.uid) : r.chance(1, 2) ? "exclude_uid:" + std::to_string(w.uid) : "noop;nosuch"; }
     if (r.chance(1, 5)) {   // long lists that differ only far behind their beginning, from one version of the file to the next
         std::string anc = "nosuchancestor"; if (w.procs.size() >= 2) { anc = w.procs[1].comm; for (char ch : anc) if (!isalnum((unsigned char)ch) && ch != '-' && ch != '_') anc = "nosuchancestor"; }
